@@ -94,3 +94,300 @@ Definition hashes_ok (computed : str -> str) (es : list distinfo_entry) : bool :
 
 (* ---------- a text file with both fixers: one pass ---------- *)
 Definition text_pass (prefix : str) (ls : list str) : list str := trim_file (fix_header prefix ls).
+
+(* ====================================================================== *)
+(* Round 4: more fixers.                                                   *)
+(* ====================================================================== *)
+
+(* ---------- Lines.CheckCvsID alone (lines.go), with the prefix pattern and the
+   suggested prefix of its call sites:
+     IdPlain  distinfo.go, patches.go   CheckCvsID(0, ``, "")
+     IdMk     mklines.go                CheckCvsID(0, `#[\t ]+`, "# ")
+     IdPlist  plist.go                  CheckCvsID(0, `@comment `, "@comment ")
+   Result None = the Go code panics (ls.Lines[0] on a file without lines). ---------- *)
+Inductive idkind := IdPlain | IdMk | IdPlist.
+Definition at_comment : str := [64;99;111;109;109;101;110;116;32].       (* "@comment " *)
+(* the text behind the prefix pattern; [\t ]+ is greedy, '$' is no blank: one way to match *)
+Definition id_strip (k : idkind) (l : str) : option str :=
+  match k with
+  | IdPlain => Some l
+  | IdPlist => strip_prefix at_comment l
+  | IdMk => match l with
+            | 35 :: r => let (ws, rest) := span is_hspace r in
+                         match ws with [] => None | _ :: _ => Some rest end
+            | _ => None
+            end
+  end.
+(* \$NetBSD(:[^\$]+)?\$$ *)
+Definition id_tail_ok (rest : str) : bool :=
+  match strip_prefix netbsd rest with
+  | None => false
+  | Some r =>
+    match r with
+    | [36] => true
+    | 58 :: body =>
+      let (b, e) := span (fun c => negb (c =? 36)) body in
+      negb (match b with [] => true | _ => false end) && str_eqb e [36]
+    | _ => false
+    end
+  end.
+Definition is_cvsid_k (k : idkind) (l : str) : bool :=
+  match id_strip k l with None => false | Some r => id_tail_ok r end.
+Definition id_suggest (k : idkind) : str :=
+  match k with IdPlain => [] | IdMk => [35;32] | IdPlist => at_comment end ++ netbsd ++ [36].
+Definition check_cvsid (k : idkind) (ls : list str) : option (list str) :=
+  match ls with
+  | [] => None                                                   (* index out of range *)
+  | l0 :: _ => Some (if is_cvsid_k k l0 then ls else id_suggest k :: ls)   (* InsertAbove *)
+  end.
+
+(* ---------- PLIST: CheckLinesPlist without a package (plist.go), as far as the
+   file is changed: CheckCvsID, and per line (PlistChecker.checkLine):
+     - the text behind the ${PLIST.cond} prefixes is empty      -> Delete
+     - first path component ${PKGMANDIR}                        -> Replace("${PKGMANDIR}/", "man/")
+       (ReplaceAfter: only if it occurs exactly once in the line; checkPath goes on with
+        the OLD rel, so checkPathMan is not reached for this line in this pass)
+     - first path component man: checkPathMan                   -> ReplaceAt(0, len-3, ".gz", "")
+     - @unexec rmdir … / @unexec ${RMDIR} %D/… without "true"  -> Delete
+   Not modelled (kept out of the corresponded domain): duplicate deletion, the sorter,
+   the egg-info rewrite. ---------- *)
+Definition is_word (c : N) : bool := is_alnum c || (c =? 95).
+Definition is_cond_char (c : N) : bool := is_word c || (c =? 45) || (c =? 46).
+Definition plist_cond_open : str := [36;123;80;76;73;83;84;46].           (* ${PLIST. *)
+(* PlistChecker.newLines: for hasPrefix(text, "${PLIST.") { ^(?:\$\{(PLIST\.[\w-.]+)\})(.+)? } *)
+Fixpoint strip_conds_fuel (fuel : nat) (l : str) : option str :=
+  match fuel with
+  | O => None
+  | S f => match strip_prefix plist_cond_open l with
+           | None => Some l
+           | Some r => let (name, rest) := span is_cond_char r in
+                       match name, rest with
+                       | _ :: _, c :: rest' => if c =? 125 then strip_conds_fuel f rest' else Some l
+                       | _, _ => Some l
+                       end
+           end
+  end.
+Definition strip_conds (l : str) : option str := strip_conds_fuel (S (length l)) l.
+
+Definition plist_line_start (c : N) : bool := (c =? 36) || is_alnum c.      (* $0-9A-Za-z *)
+Definition first_part (text : str) : str := fst (span (fun c => negb (c =? 47)) text).
+Definition pkgmandir : str := [36;123;80;75;71;77;65;78;68;73;82;125].
+Definition pkgmandir_slash : str := pkgmandir ++ [47].
+Definition man_slash : str := [109;97;110;47].
+
+(* strings.Count(s, pat) for a non-empty pat: non-overlapping, from the left *)
+Fixpoint count_fuel (fuel : nat) (pat s : str) : N :=
+  match fuel with
+  | O => 0
+  | S f => match strip_prefix pat s with
+           | Some r => 1 + count_fuel f pat r
+           | None => match s with [] => 0 | _ :: t => count_fuel f pat t end
+           end
+  end.
+Definition count_pkgmandir (s : str) : N := count_fuel (S (length s)) pkgmandir_slash s.
+(* replaceOnce: the first occurrence *)
+Fixpoint replace_first (pat rep s : str) : str :=
+  match strip_prefix pat s with
+  | Some r => rep ++ r
+  | None => match s with [] => [] | c :: t => c :: replace_first pat rep t end
+  end.
+
+(* (\.gz)? of ^(.*?)\.(\w+)(\.gz)?$ is non-empty iff base = P ++ "." ++ W ++ ".gz", W in \w+ *)
+Definition gz_base (base : str) : bool :=
+  match rev base with
+  | 122 :: 103 :: 46 :: r' =>
+    let (w, p) := span is_word r' in
+    match w, p with
+    | _ :: _, 46 :: _ => true
+    | _, _ => false
+    end
+  | _ => false
+  end.
+(* ^man/(cat|man)(\w+)/(.+)?$ and then the base name *)
+Definition gz_text (text : str) : bool :=
+  match strip_prefix man_slash text with
+  | None => false
+  | Some t2 =>
+    let after := match strip_prefix [99;97;116] t2 with
+                 | Some t3 => Some t3
+                 | None => strip_prefix [109;97;110] t2
+                 end in
+    match after with
+    | None => false
+    | Some t3 => let (sec, rest) := span is_word t3 in
+                 match sec, rest with
+                 | _ :: _, 47 :: base => gz_base base
+                 | _, _ => false
+                 end
+    end
+  end.
+Definition ends_gz (s : str) : bool :=
+  match rev s with 122 :: 103 :: 46 :: _ => true | _ => false end.
+Definition drop_last3 (s : str) : str := firstn (length s - 3) s.
+
+(* PlistLine.CheckDirective, as far as the file is changed: ^@([a-z-]+)[\t ]*(.+)?  with cmd = unexec and
+   arg =~ ^(?:rmdir|\$\{RMDIR\} %D/)(.+)?  whose rest contains neither "true" nor "${TRUE}" -> Delete *)
+Definition is_lower_dash (c : N) : bool := is_lower c || (c =? 45).
+Fixpoint contains_sub (pat s : str) : bool :=
+  match strip_prefix pat s with
+  | Some _ => true
+  | None => match s with [] => false | _ :: t => contains_sub pat t end
+  end.
+Definition unexec_rmdir (text : str) : bool :=
+  match text with
+  | c :: t =>
+    if c =? 64 then
+      let (cmd, rest) := span is_lower_dash t in
+      if str_eqb cmd [117;110;101;120;101;99] then
+        let arg := snd (span is_hspace rest) in
+        let dir := match strip_prefix [114;109;100;105;114] arg with
+                   | Some d => Some d
+                   | None => strip_prefix [36;123;82;77;68;73;82;125;32;37;68;47] arg
+                   end in
+        match dir with
+        | None => false
+        | Some d => negb (contains_sub [116;114;117;101] d) && negb (contains_sub [36;123;84;82;85;69;125] d)
+        end
+      else false
+    else false
+  | [] => false
+  end.
+
+Inductive lres := LKeep (l : str) | LDelete | LFuel.
+Definition plist_line_fix (raw : str) : lres :=
+  match strip_conds raw with
+  | None => LFuel
+  | Some text =>
+    match text with
+    | [] => LDelete
+    | c :: _ =>
+      if plist_line_start c then
+        if str_eqb (first_part text) pkgmandir then
+          LKeep (if count_pkgmandir raw =? 1 then replace_first pkgmandir_slash man_slash raw else raw)
+        else if str_eqb (first_part text) [109;97;110] then
+          LKeep (if gz_text text && ends_gz raw then drop_last3 raw else raw)
+        else LKeep raw
+      else if unexec_rmdir text then LDelete else LKeep raw
+    end
+  end.
+(* which fix is offered for a line (for the statements) *)
+Definition gz_offered (raw : str) : bool :=
+  match strip_conds raw with
+  | Some (c :: t) => plist_line_start c && str_eqb (first_part (c :: t)) [109;97;110] && gz_text (c :: t) && ends_gz raw
+  | _ => false
+  end.
+
+Fixpoint plist_lines_fix (ls : list str) : option (list str) :=
+  match ls with
+  | [] => Some []
+  | l :: r => match plist_line_fix l, plist_lines_fix r with
+              | LFuel, _ => None
+              | _, None => None
+              | LDelete, Some r' => Some r'
+              | LKeep l', Some r' => Some (l' :: r')
+              end
+  end.
+Inductive pres := POk (ls : list str) | PPanic | PFuel.
+Definition plist_pass (ls : list str) : pres :=
+  match ls with
+  | [] => PPanic
+  | l0 :: r =>
+    if is_cvsid_k IdPlist l0 then
+      match r with
+      | [] => POk ls                              (* "PLIST files must not be empty." *)
+      | _ => match plist_lines_fix ls with Some o => POk o | None => PFuel end
+      end
+    else match plist_lines_fix ls with Some o => POk (id_suggest IdPlist :: o) | None => PFuel end
+  end.
+
+(* ---------- Makefile.common: MkLines.CheckUsedBy (mklines.go) with SplitToParagraphs.
+   A file is its list of lines; in the corresponded domain there are no continuation lines. ---------- *)
+Definition used_by_prefix : str := [35;32;117;115;101;100;32;98;121;32].   (* "# used by " *)
+(* MkLineParser.Parse, as far as IsComment/IsEmpty of a line without continuation go:
+   a line that starts with a tab is a comment if '#' follows the white-space, else a shell
+   command (never empty); any other line is a comment if its trimmed text starts with '#'
+   (this includes commented assignments), empty if the trimmed text is empty *)
+Definition skip_hspace (l : str) : str := snd (span is_hspace l).
+Definition mk_is_comment (l : str) : bool := match skip_hspace l with c :: _ => c =? 35 | [] => false end.
+Definition mk_is_empty (l : str) : bool :=
+  match l with
+  | [] => true
+  | c :: _ => if c =? 9 then false else match skip_hspace l with [] => true | _ :: _ => false end
+  end.
+Definition is_space_go (c : N) : bool := ((9 <=? c) && (c <=? 13)) || (c =? 32).   (* strings.Fields, ASCII *)
+Fixpoint fields_count (in_field : bool) (s : str) : N :=
+  match s with
+  | [] => 0
+  | c :: r => if is_space_go c then fields_count false r
+              else (if in_field then 0 else 1) + fields_count true r
+  end.
+Definition is_used_by_line (l : str) : bool := has_prefix used_by_prefix l && (fields_count false l =? 4).
+
+(* SplitToParagraphs.isEmpty(i), as a flag per line; prev = (i == 0 || lines[i-1].IsComment()) *)
+Fixpoint sep_flags (prev : bool) (ls : list str) : list (bool * str) :=
+  match ls with
+  | [] => []
+  | l :: r =>
+    let next := match r with [] => true | n :: _ => mk_is_comment n end in
+    (mk_is_empty l || (str_eqb l [35] && prev && next), l) :: sep_flags (mk_is_comment l) r
+  end.
+Inductive seg := Sep (l : str) | Par (ls : list str).
+Fixpoint group (fl : list (bool * str)) : list seg :=
+  match fl with
+  | [] => []
+  | (true, l) :: r => Sep l :: group r
+  | (false, l) :: r => match group r with
+                       | Par p :: gs => Par (l :: p) :: gs
+                       | gs => Par [l] :: gs
+                       end
+  end.
+Definition seg_lines (s : seg) : list str := match s with Sep l => [l] | Par p => p end.
+Definition flatten (gs : list seg) : list str := flat_map seg_lines gs.
+
+(* the closure in determineUsedParas, per paragraph: (hasUsedBy, hasOther, conflict, found) *)
+Record pstate := mk_ps { ps_used : bool; ps_other : bool; ps_conflict : bool; ps_found : bool }.
+Definition para_step (expected : str) (st : pstate) (l : str) : pstate :=
+  if is_cvsid_k IdMk l then st
+  else if is_used_by_line l then
+    mk_ps true (ps_other st) (ps_conflict st || ps_other st) (ps_found st || str_eqb l expected)
+  else mk_ps (ps_used st) true (ps_conflict st || ps_used st) (ps_found st).
+Definition para_scan (expected : str) (p : list str) : pstate :=
+  fold_left (para_step expected) p (mk_ps false false false false).
+Definition para_is_used (expected : str) (p : list str) : bool :=
+  let st := para_scan expected p in negb (ps_conflict st) && ps_used st.
+Definition found_in (expected : str) (gs : list seg) : bool :=
+  existsb (fun s => match s with Sep _ => false | Par p => ps_found (para_scan expected p) end) gs.
+Definition has_used_para (expected : str) (gs : list seg) : bool :=
+  existsb (fun s => match s with Sep _ => false | Par p => para_is_used expected p end) gs.
+Definition has_par (gs : list seg) : bool :=
+  existsb (fun s => match s with Sep _ => false | Par _ => true end) gs.
+(* insert lines below the last line of the first paragraph that satisfies sel *)
+Fixpoint insert_below (sel : list str -> bool) (ins : list str) (gs : list seg) : option (list seg) :=
+  match gs with
+  | [] => None
+  | Sep l :: r => match insert_below sel ins r with Some r' => Some (Sep l :: r') | None => None end
+  | Par p :: r => if sel p then Some (Par (p ++ ins) :: r)
+                  else match insert_below sel ins r with Some r' => Some (Par p :: r') | None => None end
+  end.
+(* paras[0].to > 1 : the first paragraph ends behind the second line of the file *)
+Definition first_para_to_gt1 (gs : list seg) : bool :=
+  match gs with
+  | Par [_] :: _ => false
+  | _ => true
+  end.
+Definition used_by (name : str) (ls : list str) : option (list str) :=
+  if (length ls <? 3)%nat then Some ls else
+  let expected := used_by_prefix ++ name in
+  let gs := group (sep_flags true ls) in
+  if negb (has_par gs) then Some ls else                 (* len(paras) == 0: nothing to do *)
+  if found_in expected gs then
+    (if has_used_para expected gs then Some ls
+     else match insert_below (fun _ => true) [] gs with Some _ => Some ls | None => None end)
+  else if has_used_para expected gs then
+    match insert_below (para_is_used expected) [expected] gs with
+    | Some gs' => Some (flatten gs') | None => None end
+  else
+    match insert_below (fun _ => true) ((if first_para_to_gt1 gs then [[]] else []) ++ [expected]) gs with
+    | Some gs' => Some (flatten gs')
+    | None => None                            (* paras[0]: index out of range *)
+    end.
